@@ -1170,11 +1170,27 @@ dt_strfd(char *restrict buf, size_t bsz, const char *fmt, struct dt_d_s that)
 		if (spec.spfl == DT_SPFL_UNK) {
 			/* must be literal then */
 			*bp++ = *fp_sav;
+		} else if (UNLIKELY(eo - bp < 8)) {
+			/* the field printers assume there is room for a
+			 * short number and a suffix, don't run them dry */
+			break;
 		} else if (LIKELY(!spec.rom)) {
 			bp += __strfd_card(bp, eo - bp, spec, &d, that);
-			if (spec.ord) {
+			if (UNLIKELY(bp > eo)) {
+				/* snprintf()-based printers return what they would
+				 * have written */
+				bp = eo;
+			}
+			if (spec.ord && bp > buf && bp + 3 <= eo) {
+				if (bp < buf + 2 || bp[-2] < '0' || bp[-2] > '9') {
+					/* single digit (%-dth), __ordtostr() wants
+					 * two and drops a leading nought again */
+					bp[0] = bp[-1];
+					bp[-1] = '0';
+					bp++;
+				}
 				bp += __ordtostr(bp, eo - bp);
-			} else if (spec.bizda) {
+			} else if (spec.bizda && bp < eo) {
 				/* don't print the b after an ordinal */
 				if (spec.ab == BIZDA_AFTER) {
 					*bp++ = 'b';
@@ -1379,9 +1395,18 @@ dt_strfddur(char *restrict buf, size_t bsz, const char *fmt, struct dt_ddur_s th
 		if (spec.spfl == DT_SPFL_UNK) {
 			/* must be literal then */
 			*bp++ = *fp_sav;
+		} else if (UNLIKELY(eo - bp < 8)) {
+			/* the field printers assume there is room for a
+			 * short number and a suffix, don't run them dry */
+			break;
 		} else if (LIKELY(!spec.rom)) {
 			bp += __strfd_dur(bp, eo - bp, spec, &d, that);
-			if (spec.bizda) {
+			if (UNLIKELY(bp > eo)) {
+				/* snprintf()-based printers return what they would
+				 * have written */
+				bp = eo;
+			}
+			if (spec.bizda && bp < eo) {
 				/* don't print the b after an ordinal */
 				if (d.flags.ab == BIZDA_AFTER) {
 					*bp++ = 'b';
